@@ -83,6 +83,13 @@ func init() {
 		l.p("def getPipesLibrarySort : Bool := %s", leanBool(libSort))
 		l.p("/-- the loop searches the insertion point with `sort.Search(cnt, …)` -/")
 		l.p("def getPipesSearchesOverCnt : Bool := %s", leanBool(searchOverCnt))
+		cmp := libSort
+		if fd != nil && !libSort {
+			cmp = c19SearchComparesNames(fd)
+		}
+		l.p("/-- the predicate given to `sort.Search` is the byte-wise `res[i].Name >= key` on the names as stored, `key` being the map key (or the Name of the value) of the")
+		l.p("current iteration (true also for the library-sort shape, whose comparison is checked separately) -/")
+		l.p("def getPipesSearchComparesNames : Bool := %s", leanBool(cmp))
 		l.write()
 	}
 }
@@ -393,4 +400,88 @@ func c19SaveSerialized(f *ast.File) bool {
 		}
 	}
 	return false
+}
+
+// c19SearchComparesNames: inside the range loop over the map, the closure given to sort.Search is
+// `func(i int) bool { return <slice>[i].Name >= <key> }` (or the mirrored `<key> <= <slice>[i].Name`), where <key> is the
+// identifier of the range statement's key, or `<value>.cfg.Name` / `<value>.Name` of the range statement's value. Local
+// names are free. Anything else (a transformed key, another field, another operator) → false.
+func c19SearchComparesNames(fd *ast.FuncDecl) bool {
+	ok := false
+	ast.Inspect(fd.Body, func(n ast.Node) bool {
+		rs, isRange := n.(*ast.RangeStmt)
+		if !isRange {
+			return true
+		}
+		keyName, valName := "", ""
+		if id, y := rs.Key.(*ast.Ident); y {
+			keyName = id.Name
+		}
+		if id, y := rs.Value.(*ast.Ident); y {
+			valName = id.Name
+		}
+		isKey := func(e ast.Expr) bool {
+			if id, y := e.(*ast.Ident); y {
+				return keyName != "" && keyName != "_" && id.Name == keyName
+			}
+			// <value>.cfg.Name or <value>.Name
+			se, y := e.(*ast.SelectorExpr)
+			if !y || se.Sel.Name != "Name" {
+				return false
+			}
+			switch x := se.X.(type) {
+			case *ast.Ident:
+				return valName != "" && x.Name == valName
+			case *ast.SelectorExpr:
+				if id, y := x.X.(*ast.Ident); y {
+					return valName != "" && id.Name == valName
+				}
+			}
+			return false
+		}
+		ast.Inspect(rs.Body, func(m ast.Node) bool {
+			c, y := m.(*ast.CallExpr)
+			if !y {
+				return true
+			}
+			se, y := c.Fun.(*ast.SelectorExpr)
+			if !y || se.Sel.Name != "Search" || len(c.Args) != 2 {
+				return true
+			}
+			fl, y := c.Args[1].(*ast.FuncLit)
+			if !y || fl.Type.Params == nil || len(fl.Type.Params.List) != 1 || len(fl.Type.Params.List[0].Names) != 1 || len(fl.Body.List) != 1 {
+				return true
+			}
+			par := fl.Type.Params.List[0].Names[0].Name
+			ret, y := fl.Body.List[0].(*ast.ReturnStmt)
+			if !y || len(ret.Results) != 1 {
+				return true
+			}
+			be, y := ret.Results[0].(*ast.BinaryExpr)
+			if !y {
+				return true
+			}
+			isElemName := func(e ast.Expr) bool { // <slice>[par].Name
+				se, y := e.(*ast.SelectorExpr)
+				if !y || se.Sel.Name != "Name" {
+					return false
+				}
+				ix, y := se.X.(*ast.IndexExpr)
+				if !y {
+					return false
+				}
+				id, y := ix.Index.(*ast.Ident)
+				return y && id.Name == par
+			}
+			switch be.Op.String() {
+			case ">=":
+				ok = isElemName(be.X) && isKey(be.Y)
+			case "<=":
+				ok = isKey(be.X) && isElemName(be.Y)
+			}
+			return true
+		})
+		return false
+	})
+	return ok
 }
